@@ -59,6 +59,13 @@ def make_vals(vt, n, seed):
 
 def canon(vt, x):
     """Bit-exact canonical form of a result."""
+    try:
+        return _canon(vt, x)
+    except Exception as e:  # a result of the wrong kind (e.g. None) is itself an observation
+        return "UNEXPECTED-RESULT %r (%s)" % (x, type(e).__name__)
+
+
+def _canon(vt, x):
     if vt == "other":
         return json.dumps(x.t)
     if vt == "ndarray":
@@ -86,7 +93,7 @@ def run_case(part, vt, seed, timeout=10.0):
     out = {"part": list(map(int, part)), "vtype": vt, "seed": int(seed), "ref_tree": ref_tree,
            "errors": err, "logs": [[list(a) for a in l] for l in logs], "ref": ref, "tree_val": tree_val}
     out["results"] = [None if e is not None else canon(vt, x) for x, e in zip(res, err)]
-    out["tree"] = res[0].t if (vt == "other" and err[0] is None) else None
+    out["tree"] = res[0].t if (vt == "other" and err[0] is None and isinstance(res[0], Sym)) else None
     return out
 
 
@@ -164,8 +171,8 @@ class C23(C.Check):
             o = run_case(p, vt, ctx.seed * 100003 + i)
             self.obs.append(o)
             part = C.clist([str(int(x)) for x in p])
-            if any(e is not None for e in o["errors"]):
-                checks.append("false")      # the model never blocks or raises
+            if any(e is not None for e in o["errors"]) or (vt == "other" and o["tree"] is None):
+                checks.append("false")      # the model never blocks, raises or returns a non-sum
             elif vt == "other":
                 checks.append("case_ok %s 1 2 %s %s" % (part, tm(o["tree"]), obs_coq(o["logs"])))
             else:
